@@ -78,6 +78,10 @@ fn prf_input(run: &mut Run, name: &str, hashed: bool, badlen: bool) -> Bytes {
         } else {
             32
         }
+    } else if run.both_members && run.run_idx % 2 == 0 {
+        // both members present: every other run the plain input has the length of a pre-hashed one, where taking
+        // it for pre-hashed yields a different (wrong) salt instead of an error
+        32
     } else {
         *[0usize, 1, 31, 32, 33, 1000].get(run.rng.gen_range(0..6)).unwrap()
     };
@@ -152,6 +156,7 @@ fn extensions(run: &mut Run, req: &Value) -> Option<AuthenticationExtensionsClie
         "false" => Some(false),
         _ => None,
     };
+    run.both_members = kind == "both";
     let prf = if kind == "prf" || kind == "both" { Some(prf_member(run, c, false, "")) } else { None };
     // the pre-hashed member carries its own inputs: "h:" when both members are present
     let prf_already_hashed = if kind == "hashed" || kind == "both" {
